@@ -53,6 +53,7 @@ def call (args : List String) : Option String :=
     | some pi, some po, some ni, some no, some n =>
       some (String.intercalate ";" ((perClocks pi po n ni no).map fun c => s!"{b2n c.1} {b2n c.2}"))
     | _, _, _, _, _ => none
+  | ["uartbone_domains", cd] => some (uartBoneDomains cd).show
   | ["ps_tight", r] => r.toNat?.map fun r =>
     String.intercalate ";" ((psTight r).map fun x => s!"{b2n x.ti} {b2n x.tO} {b2n x.m} {b2n x.i}")
   | ["uart_fifo_kind", d, a, b] => d.toNat?.map fun d => (uartFifoKind d a b).show
